@@ -19,11 +19,13 @@ template <class T> struct LibTypes<T, 4> { typedef Matrix44<T> M; typedef Vec4<T
 
 struct SvdTally
 {
-    long long cases = 0, transitions = 0, rankdef = 0, repeated = 0, diagonal = 0, negdet = 0, generic = 0, aliased = 0;
+    long long cases = 0, transitions = 0, rankdef = 0, repeated = 0, diagonal = 0, negdet = 0, generic = 0, aliased = 0, scaled = 0;
+    long long graded = 0, graded_neg = 0, graded_firstsweep = 0;
     double    w_orth = 0, w_recomp = 0, w_sv = 0;
     void merge (const SvdTally& o)
     {
-        cases += o.cases; transitions += o.transitions; rankdef += o.rankdef; repeated += o.repeated; diagonal += o.diagonal; negdet += o.negdet; generic += o.generic; aliased += o.aliased;
+        cases += o.cases; transitions += o.transitions; rankdef += o.rankdef; repeated += o.repeated; diagonal += o.diagonal; negdet += o.negdet; generic += o.generic; aliased += o.aliased; scaled += o.scaled;
+        graded += o.graded; graded_neg += o.graded_neg; graded_firstsweep += o.graded_firstsweep;
         w_orth = std::max (w_orth, o.w_orth); w_recomp = std::max (w_recomp, o.w_recomp); w_sv = std::max (w_sv, o.w_sv);
     }
 };
@@ -69,15 +71,29 @@ template <int N> struct IntMat
     }
 };
 
-template <class T, int N> static void checkSvd (const IntMat<N>& I, SvdTally& t)
+// kexp != 0: the same integer matrix multiplied by 2^kexp (exactly representable; every quantity of the oracle scales by
+// the same exact factor). The statement's relations are relative to |A|, so they must hold unchanged; the sites carry the
+// suffix ".scaled-input" (a tolerance or an early-out that is absolute instead of relative to the data is invisible on O(1)
+// integers). 2^kexp is chosen so that entries, their pairwise products and the rounding-level residues eps*|A| stay normal
+// numbers of T: +-40 for float, +-300 for double.
+template <class T, int N> static void checkSvd (const IntMat<N>& I0, SvdTally& t, int kexp = 0)
 {
     typedef typename LibTypes<T, N>::M LM;
     typedef typename LibTypes<T, N>::V LV;
     const LD          eps = ex::eps<T> ();
+    const std::string sfx = kexp ? ".scaled-input" : "";
     const std::string fn  = std::string ("jacobiSVD(") + LibTypes<T, N>::name () + ")";
+    struct Scaled { ref::Mat<N> A; LD sigma[N], normF; int rank; bool repeated, isDiagonal; ex::i128 det; std::string s; std::string str () const { return s; } } I;
+    {
+        const LD sc = ldexpl (1.0L, kexp);
+        for (int i = 0; i < N; ++i) { I.sigma[i] = I0.sigma[i] * sc; for (int j = 0; j < N; ++j) I.A[i][j] = I0.A[i][j] * sc; }
+        I.normF = I0.normF * sc; I.rank = I0.rank; I.repeated = I0.repeated; I.isDiagonal = I0.isDiagonal; I.det = I0.det;
+        I.s = I0.str () + (kexp ? " * 2^" + std::to_string (kexp) : std::string ());
+    }
     LM A;
-    for (int i = 0; i < N; ++i) for (int j = 0; j < N; ++j) A[i][j] = (T) I.a[i * N + j];
+    for (int i = 0; i < N; ++i) for (int j = 0; j < N; ++j) A[i][j] = (T) I.A[i][j];
     ++t.cases;
+    if (kexp) ++t.scaled;
     if (I.rank < N) ++t.rankdef;
     if (I.repeated) ++t.repeated;
     if (I.isDiagonal) ++t.diagonal;
@@ -110,14 +126,14 @@ template <class T, int N> static void checkSvd (const IntMat<N>& I, SvdTally& t)
                 }
             }
             ++t.aliased;
-            if (!same1) R ().fail (fn + ".U-aliases-A", in (), "U=" + ref::fmtLib<N> (U) + " S=" + fmtVec (S), "U=" + ref::fmtLib<N> (M1) + " S=" + fmtVec (S1));
-            if (!same2) R ().fail (fn + ".V-aliases-A", in (), "V=" + ref::fmtLib<N> (V) + " S=" + fmtVec (S), "V=" + ref::fmtLib<N> (M2) + " S=" + fmtVec (S2));
+            if (!same1) R ().fail (fn + ".U-aliases-A" + sfx, in (), "U=" + ref::fmtLib<N> (U) + " S=" + fmtVec (S), "U=" + ref::fmtLib<N> (M1) + " S=" + fmtVec (S1));
+            if (!same2) R ().fail (fn + ".V-aliases-A" + sfx, in (), "V=" + ref::fmtLib<N> (V) + " S=" + fmtVec (S), "V=" + ref::fmtLib<N> (M2) + " S=" + fmtVec (S2));
         }
         ref::Mat<N> Ul = ref::fromLib<N> (U), Vl = ref::fromLib<N> (V), D;
         LD ou = ref::orthoErr (ref::transpose (Ul)), ov = ref::orthoErr (ref::transpose (Vl));
         t.w_orth = std::max (t.w_orth, (double) (std::max (ou, ov) / eps));
-        if (!(ou <= 64 * eps)) R ().fail (fn + ".U-orthonormal", in (), "|U^T U - I| <= 64 eps", ref::fmtE (ou / eps) + " eps; U=" + ref::fmtLib<N> (U));
-        if (!(ov <= 64 * eps)) R ().fail (fn + ".V-orthonormal", in (), "|V^T V - I| <= 64 eps", ref::fmtE (ov / eps) + " eps; V=" + ref::fmtLib<N> (V));
+        if (!(ou <= 64 * eps)) R ().fail (fn + ".U-orthonormal" + sfx, in (), "|U^T U - I| <= 64 eps", ref::fmtE (ou / eps) + " eps; U=" + ref::fmtLib<N> (U));
+        if (!(ov <= 64 * eps)) R ().fail (fn + ".V-orthonormal" + sfx, in (), "|V^T V - I| <= 64 eps", ref::fmtE (ov / eps) + " eps; V=" + ref::fmtLib<N> (V));
         bool ordered = true, nonneg = true;
         for (int i = 0; i < N; ++i)
         {
@@ -127,29 +143,29 @@ template <class T, int N> static void checkSvd (const IntMat<N>& I, SvdTally& t)
             if (!(si >= 0) && !(force && i == N - 1)) nonneg = false;
             D[i][i] = si;
         }
-        if (!ordered) R ().fail (fn + ".descending", in (), "S[0] >= S[1] >= ... (exact)", fmtVec (S));
-        if (!nonneg) R ().fail (fn + (force ? ".only-last-value-may-be-negative" : ".non-negative"), in (), force ? "S[i] >= 0 for i < n-1" : "S >= 0", fmtVec (S));
+        if (!ordered) R ().fail (fn + ".descending" + sfx, in (), "S[0] >= S[1] >= ... (exact)", fmtVec (S));
+        if (!nonneg) R ().fail (fn + (force ? ".only-last-value-may-be-negative" : ".non-negative") + sfx, in (), force ? "S[i] >= 0 for i < n-1" : "S >= 0", fmtVec (S));
         if (force)
         {
             LD du = ref::det (Ul), dv = ref::det (Vl);
-            if (!(du > 0)) R ().fail (fn + ".forcePositiveDeterminant.det-U", in (), "> 0", ref::fmtE (du));
-            if (!(dv > 0)) R ().fail (fn + ".forcePositiveDeterminant.det-V", in (), "> 0", ref::fmtE (dv));
+            if (!(du > 0)) R ().fail (fn + ".forcePositiveDeterminant.det-U" + sfx, in (), "> 0", ref::fmtE (du));
+            if (!(dv > 0)) R ().fail (fn + ".forcePositiveDeterminant.det-V" + sfx, in (), "> 0", ref::fmtE (dv));
         }
         ref::Mat<N> UD; // U diag(S): scale the columns
         for (int i = 0; i < N; ++i) for (int k = 0; k < N; ++k) UD[i][k] = Ul[i][k] * D[k][k];
         LD rc = ref::maxdiff (ref::mul (UD, ref::transpose (Vl)), I.A);
         if (I.normF > 0) t.w_recomp = std::max (t.w_recomp, (double) (rc / (eps * I.normF)));
-        if (!(rc <= 64 * eps * I.normF)) R ().fail (fn + ".recompose", in (), "|U diag(S) V^T - A| <= 64 eps |A|_F", ref::fmtE (rc / (eps * std::max (I.normF, (LD) 1e-300L))) + " eps|A|; S=" + fmtVec (S));
+        if (!(rc <= 64 * eps * I.normF)) R ().fail (fn + ".recompose" + sfx, in (), "|U diag(S) V^T - A| <= 64 eps |A|_F", ref::fmtE (rc / (eps * std::max (I.normF, (LD) 1e-300L))) + " eps|A|; S=" + fmtVec (S));
         LD sv = 0;
         for (int i = 0; i < N; ++i) { LD d = fabsl (fabsl ((LD) S[i]) - I.sigma[i]); sv = (d == d) ? std::max (sv, d) : INFINITY; }
         if (I.normF > 0) t.w_sv = std::max (t.w_sv, (double) (sv / (eps * I.normF)));
         if (!(sv <= 64 * eps * I.normF))
-            R ().fail (fn + ".singular-values", in (), vf::Msg () << "(" << ref::fmtE (I.sigma[0]) << " " << ref::fmtE (I.sigma[1]) << " " << ref::fmtE (I.sigma[2]) << (N == 4 ? " " + ref::fmtE (I.sigma[N - 1]) : std::string ()) << ") within 64 eps |A|_F", fmtVec (S));
+            R ().fail (fn + ".singular-values" + sfx, in (), vf::Msg () << "(" << ref::fmtE (I.sigma[0]) << " " << ref::fmtE (I.sigma[1]) << " " << ref::fmtE (I.sigma[2]) << (N == 4 ? " " + ref::fmtE (I.sigma[N - 1]) : std::string ()) << ") within 64 eps |A|_F", fmtVec (S));
         t.transitions += 5 + 2 * force;
     }
 }
 
-template <int N> static bool sweep (const char* stage, uint64_t count, unsigned base, int offset, const std::string& bound)
+template <int N> static bool sweep (const char* stage, uint64_t count, unsigned base, int offset, const std::string& bound, int kf = 0, int kd = 0)
 {
     if (!R ().stage (stage)) return true;
     SvdTally   G;
@@ -163,14 +179,32 @@ template <int N> static bool sweep (const char* stage, uint64_t count, unsigned 
             IntMat<N> I;
             for (int k = 0; k < N * N; ++k) I.a[k] = d[k];
             I.finish ();
-            checkSvd<float, N> (I, l);
-            checkSvd<double, N> (I, l);
+            if (kf == 0)
+            {
+                checkSvd<float, N> (I, l);
+                checkSvd<double, N> (I, l);
+            }
+            else
+                for (int sg = -1; sg <= 1; sg += 2)
+                {
+                    checkSvd<float, N> (I, l, sg * kf);
+                    checkSvd<double, N> (I, l, sg * kd);
+                }
         }
         std::lock_guard<std::mutex> g (mu);
         G.merge (l);
     });
     const std::string n = std::to_string (N) + "x" + std::to_string (N);
     R ().add ("states", G.cases / 2); R ().add ("evaluations", G.cases * 2); R ().add ("transitions", G.transitions);
+    if (kf)
+    {
+        R ().cls ("svd" + n + ".input-scaled-by-2^+-k", G.scaled);
+        R ().note_max ("worst scaled-input SVD " + n + " orthonormality (eps)", G.w_orth);
+        R ().note_max ("worst scaled-input SVD " + n + " recomposition (eps |A|_F)", G.w_recomp);
+        R ().note_max ("worst scaled-input SVD " + n + " singular value error (eps |A|_F)", G.w_sv);
+        if (ok) R ().stage_done (bound); else R ().stage_partial (std::to_string (G.cases / 4) + " matrices of: " + bound);
+        return ok;
+    }
     R ().cls ("svd" + n + ".rank-deficient", G.rankdef);
     R ().cls ("svd" + n + ".repeated-singular-values", G.repeated);
     R ().cls ("svd" + n + ".already-diagonal", G.diagonal);
@@ -184,8 +218,107 @@ template <int N> static bool sweep (const char* stage, uint64_t count, unsigned 
     return ok;
 }
 
+// ---- graded entries: every 3x3 matrix with at most four non-zero entries taken from {+-1, +-2^20, +-2^-20}.
+// Normwise backward stability of the two-sided Jacobi iteration does not depend on the grading, so the same relations hold
+// with the same bounds relative to |A|_F: U, V orthonormal, |S| descending, signs, U diag(S) V^T = A to 64 eps |A|_F. (The
+// exact singular values are not compared here: the small ones of a graded matrix are below the resolution of the
+// long-double reference that works on A^T A.) On integer inputs the "negligible but non-zero off-diagonal entry is zeroed"
+// branches of the 2x2 step are reached only in late sweeps; here the very first sweep meets |x| <= eps |w|.
+template <class T> static void checkGraded (const LD a[9], const std::string& str, SvdTally& t)
+{
+    const LD eps = ex::eps<T> ();
+    const std::string fn = "jacobiSVD(Matrix33)", sfx = ".graded-entries";
+    Matrix33<T> A;
+    ref::M3 Al;
+    for (int i = 0; i < 3; ++i) for (int j = 0; j < 3; ++j) { A[i][j] = (T) a[3 * i + j]; Al[i][j] = a[3 * i + j]; }
+    const LD normF = ref::frob (Al);
+    ++t.cases; ++t.graded;
+    if (ref::det (Al) < 0) ++t.graded_neg;
+    for (int i = 0; i < 3; ++i) for (int j = 0; j < 3; ++j) if (i != j && a[3 * i + j] != 0 && fabsl (a[3 * i + j]) <= eps * normF) { ++t.graded_firstsweep; i = 3; break; }
+    for (int force = 0; force < 2; ++force)
+    {
+        Matrix33<T> U, V;
+        Vec3<T>     S;
+        auto in = [&] () { return "T=" + std::string (ref::tname<T> ()) + " forcePositiveDeterminant=" + (force ? "true" : "false") + " A=" + str; };
+        if (force) jacobiSVD (A, U, S, V, std::numeric_limits<T>::epsilon (), true);
+        else jacobiSVD (A, U, S, V);
+        ref::M3 Ul = ref::fromLib<3> (U), Vl = ref::fromLib<3> (V), UD;
+        LD ou = ref::orthoErr (ref::transpose (Ul)), ov = ref::orthoErr (ref::transpose (Vl));
+        t.w_orth = std::max (t.w_orth, (double) (std::max (ou, ov) / eps));
+        if (!(ou <= 64 * eps)) R ().fail (fn + ".U-orthonormal" + sfx, in (), "|U^T U - I| <= 64 eps", ref::fmtE (ou / eps) + " eps; U=" + ref::fmtLib<3> (U));
+        if (!(ov <= 64 * eps)) R ().fail (fn + ".V-orthonormal" + sfx, in (), "|V^T V - I| <= 64 eps", ref::fmtE (ov / eps) + " eps; V=" + ref::fmtLib<3> (V));
+        bool ordered = true, nonneg = true;
+        for (int i = 0; i < 3; ++i)
+        {
+            LD si = (LD) S[i];
+            if (!(si == si)) { ordered = false; continue; }
+            if (i + 1 < 3 && !(fabsl (si) >= fabsl ((LD) S[i + 1]))) ordered = false;
+            if (!(si >= 0) && !(force && i == 2)) nonneg = false;
+        }
+        if (!ordered) R ().fail (fn + ".descending" + sfx, in (), "|S[0]| >= |S[1]| >= |S[2]| (exact)", fmtVec (S));
+        if (!nonneg) R ().fail (fn + (force ? ".only-last-value-may-be-negative" : ".non-negative") + sfx, in (), force ? "S[i] >= 0 for i < n-1" : "S >= 0", fmtVec (S));
+        if (force)
+        {
+            LD du = ref::det (Ul), dv = ref::det (Vl);
+            if (!(du > 0)) R ().fail (fn + ".forcePositiveDeterminant.det-U" + sfx, in (), "> 0", ref::fmtE (du));
+            if (!(dv > 0)) R ().fail (fn + ".forcePositiveDeterminant.det-V" + sfx, in (), "> 0", ref::fmtE (dv));
+        }
+        for (int i = 0; i < 3; ++i) for (int k = 0; k < 3; ++k) UD[i][k] = Ul[i][k] * (LD) S[k];
+        LD rc = ref::maxdiff (ref::mul (UD, ref::transpose (Vl)), Al);
+        t.w_recomp = std::max (t.w_recomp, (double) (rc / (eps * normF)));
+        if (!(rc <= 64 * eps * normF)) R ().fail (fn + ".recompose" + sfx, in (), "|U diag(S) V^T - A| <= 64 eps |A|_F", ref::fmtE (rc / (eps * normF)) + " eps|A|; S=" + fmtVec (S));
+        t.transitions += 4 + 2 * force;
+    }
+}
+
+static void stage_graded ()
+{
+    if (!R ().stage ("svd3x3-graded")) return;
+    static const LD VAL[6] = {1, -1, 1048576.0L, -1048576.0L, 9.5367431640625e-07L, -9.5367431640625e-07L}; // +-1, +-2^20, +-2^-20
+    static const char* const VN[6] = {"1", "-1", "2^20", "-2^20", "2^-20", "-2^-20"};
+    // enumerate position subsets of size 1..4 (bitmask over 9 cells), then 6^m values
+    std::vector<int> masks;
+    for (int m = 1; m < 512; ++m) if (__builtin_popcount (m) <= 4) masks.push_back (m);
+    SvdTally   G;
+    std::mutex mu;
+    bool ok = vf::parallel_chunks (masks.size (), 1, [&] (uint64_t lo, uint64_t hi, unsigned) {
+        SvdTally l;
+        for (uint64_t mi = lo; mi < hi; ++mi)
+        {
+            int pos[4], m = 0;
+            for (int c = 0; c < 9; ++c) if (masks[mi] >> c & 1) pos[m++] = c;
+            const uint64_t nv = ex::ipow (6, m);
+            for (uint64_t vi = 0; vi < nv; ++vi)
+            {
+                int d[4];
+                ex::decode (vi, 6, m, d);
+                LD a[9] = {0, 0, 0, 0, 0, 0, 0, 0, 0};
+                std::string str = "[";
+                for (int q = 0; q < m; ++q) a[pos[q]] = VAL[d[q]];
+                for (int c = 0, q = 0; c < 9; ++c) { str += (c ? " " : ""); if (a[c] != 0) str += VN[d[q++]]; else str += "0"; }
+                str += "]";
+                checkGraded<float> (a, str, l);
+                checkGraded<double> (a, str, l);
+            }
+        }
+        std::lock_guard<std::mutex> g (mu);
+        G.merge (l);
+    });
+    R ().add ("states", G.cases / 2); R ().add ("evaluations", G.cases * 2); R ().add ("transitions", G.transitions);
+    R ().cls ("svd3x3.graded-entries(1, 2^20, 2^-20)", G.graded);
+    R ().cls ("svd3x3.graded.negative-determinant", G.graded_neg);
+    R ().cls ("svd3x3.graded.off-diagonal-entry-below-eps|A|(first-sweep negligible branch)", G.graded_firstsweep);
+    R ().note_max ("worst graded SVD 3x3 orthonormality (eps)", G.w_orth);
+    R ().note_max ("worst graded SVD 3x3 recomposition (eps |A|_F)", G.w_recomp);
+    std::string b = "all 3x3 matrices with 1..4 non-zero entries from {+-1, +-2^20, +-2^-20} x {float,double} x {default, forcePositiveDeterminant}";
+    if (ok) R ().stage_done (b); else R ().stage_partial (b);
+}
+
 void stage_svd ()
 {
+    stage_graded ();
+    sweep<3> ("svd3x3-scaled", ex::ipow (4, 9), 4, -1, "all 262144 3x3 matrices over {-1,0,1,2} times 2^+-40 (float) / 2^+-300 (double) x {default, forcePositiveDeterminant}", 40, 300);
+    sweep<4> ("svd4x4-scaled", ex::ipow (2, 16), 2, 0, "all 65536 4x4 matrices over {0,1} times 2^+-40 (float) / 2^+-300 (double) x {default, forcePositiveDeterminant}", 40, 300);
     sweep<3> ("svd3x3", ex::ipow (4, 9), 4, -1, "all 262144 3x3 matrices over {-1,0,1,2} x {float,double} x {default, forcePositiveDeterminant}");
     if (R ().thorough ())
         sweep<4> ("svd4x4", ex::ipow (3, 16), 3, -1, "all 43046721 4x4 matrices over {-1,0,1} x {float,double} x {default, forcePositiveDeterminant}");
